@@ -29,7 +29,8 @@ ASSUMPTIONS = [
     'for -j standard output is expected to be empty (no document is printed in that mode)',
 ]
 MODES = {'list': ['-l'], 'all': ['-a'], 'count': ['-n'], 'plid': ['--plid', '0x50000001'], 'src': ['--src', 'BD8D'],
-         'json': ['-j'], 'hexlist': ['-l', '-x'], 'hexall': ['-a', '-x'], 'listE': ['-l', '-E'], 'allrev': ['-a', '-r']}
+         'json': ['-j'], 'hexlist': ['-l', '-x'], 'hexall': ['-a', '-x'], 'listE': ['-l', '-E'], 'allrev': ['-a', '-r'],
+         'srcex': ['--src-exclude', '<exclude>'], 'bmcid': ['--bmc-id', '<bmc>']}
 
 
 def model_checks(tier):
@@ -44,6 +45,13 @@ def cases(tier, seed, info):
 
 def _run(d, out_dir, mode):
     argv = ['-p', d] + MODES[mode]
+    if mode == 'srcex':
+        ex = os.path.join(os.path.dirname(d), 'exclude.txt')
+        with open(ex, 'w') as f:
+            f.write('BC8A1001\n')
+        argv = ['-p', d, '--src-exclude', ex]
+    if mode == 'bmcid':
+        argv = ['-p', d, '--bmc-id', '4242']
     if mode == 'json':
         shutil.rmtree(out_dir, ignore_errors=True)
         os.makedirs(out_dir)
@@ -54,6 +62,8 @@ def _run(d, out_dir, mode):
         wf = dirrun.hex_blocks(out) is not None
     elif mode == 'json':
         wf = out.strip() == ''
+    elif mode == 'bmcid':
+        wf = dirrun.json_ok(out) or out.strip() == 'PEL not found'
     else:
         wf = dirrun.json_ok(out)
     files = {}
@@ -78,6 +88,8 @@ def _shows_something(r, mode):
         return bool(r['files'])
     if mode in ('hexlist', 'hexall'):
         return t != ''
+    if mode == 'bmcid':
+        return t != 'PEL not found'
     try:
         return bool(json.loads(t))
     except Exception:
@@ -93,6 +105,7 @@ def run_case(case):
     for k in range(n):
         eid = 0x50000100 + k * 16 + rng.randrange(16)
         pel = dirrun.mk_pel(rng, eid, plid=0x50000001 if k % 2 == 0 else eid, ref=rng.choice(dirrun.REFS),
+                            bmc=4242 if k == 0 else 5000 + k,
                             sev=rng.choice([0x40, 0x20, 0x00, 0x51]), flags=rng.choice([0x2000, 0x2000, 0x6000, 0x8000]))
         nm = '%s_%08X' % (rng.choice(['2023', 'm', 'B']), eid)
         files.append((nm, bytes(encode.encode(pel))))
